@@ -104,3 +104,25 @@ func VerifQueueShape(ts *VerifTS, A, B *Agent, shape int) {
 		mk(B, COMMAND_SLEEP, map[string]any{"TaskID": "0000000b", "Arguments": "5;10"})
 	}
 }
+
+// H_c01_dispatch_lazy: one TaskDispatch call per command id on a lazily generated input:
+// every field the handler asks for exists with an arbitrary value (integers fully
+// symbolic, length-prefixed fields of 0,1,2,3,4 or 40 arbitrary bytes), and at every
+// point where the handler checks for more input the input may also end.
+func H_c01_dispatch_lazy() {
+	ci := nondet_choice("cmd", len(verifCommands)+1)
+	ts, A, _, _ := verifStateS()
+	ts.Logs = nondet_bool("sendlogs")
+	var cmd uint32
+	if ci < len(verifCommands) {
+		cmd = verifCommands[ci]
+	} else {
+		cmd = nondet_u32("cmd-other")
+		verif_assume(!verifIsTableCommand(cmd))
+	}
+	rid := nondet_u32("rid")
+	A.Tasks = append(A.Tasks, Job{RequestID: rid, Command: cmd})
+	A.TaskDispatch(rid, cmd, parser.NewParser(parser.VerifLazyBuffer()), ts)
+	verif_no_locks_held("TaskDispatch returns with no agent mutex held")
+	verif_witness()
+}
